@@ -235,6 +235,11 @@ func (r *exprRenderer) render(e *AExpr, path string) {
 		r.sb.WriteString("[")
 		r.render(e.Key, sub("key"))
 		r.sb.WriteString("]")
+	case "splat":
+		r.render(e.E, sub("e"))
+		r.sb.WriteString("[*][")
+		r.render(e.Key, sub("key"))
+		r.sb.WriteString("]")
 	case "for":
 		r.sb.WriteString("[for x in ")
 		r.render(e.Coll, sub("coll"))
